@@ -11,7 +11,7 @@ for m in sorted(glob.glob(os.path.join(HERE, "seeded", "*", "meta.json"))):
     rows.append("| %s | %s | %s | %s | %s | %s |" % (
         d["id"], d["property"], (d.get("summary") or "").replace("|", "/").replace("\n", " ")[:260],
         (d.get("needs") or "").replace("|", "/").replace("\n", " ")[:200],
-        ("**caught** by %s quick (%.0f s)" % (d["property"], c["seconds"])) if c["caught"] else "MISSED",
+        ("**caught** by %s quick (%.0f s)%s" % (d["property"], c["seconds"], (", %d/%d base seeds" % (d["robustness"]["caught"], d["robustness"]["of"])) if d.get("robustness") else "")) if c["caught"] else ("not detected (by decision)" if "NOT DETECTED, by decision" in (d.get("history") or "") else "MISSED"),
         "; ".join(w.replace("|", "/")[:140] for w in c.get("what", [])[:1]) + ("" if not d.get("history") else " — " + d["history"])))
 with open(os.path.join(HERE, "seeded", "INDEX.md"), "w") as f:
     f.write("# Independently written breaking changes and what the checks say\n\n"
